@@ -115,20 +115,40 @@ fn run<T: CoordNum + GeoNum>(c: &Case, obs: &mut Obs, fwd: &dyn Fn(i64) -> T, ba
     results.push(("quick_hull", guard(std::panic::AssertUnwindSafe(|| quick_hull(&mut v1)))));
     let mut v2 = coords.clone();
     results.push(("graham_hull", guard(std::panic::AssertUnwindSafe(|| graham_hull(&mut v2, false)))));
-    let wrapped = guard(std::panic::AssertUnwindSafe(|| match c.wrap % 3 {
-        0 => MultiPoint::new(coords.iter().map(|c| Point(*c)).collect()).convex_hull(),
-        1 => LineString::new(coords.clone()).convex_hull(),
-        _ => {
+    // the same coordinate multiset through different receivers of the ConvexHull trait
+    let wrapped = guard(std::panic::AssertUnwindSafe(|| {
+        let h = coords.len() / 2;
+        let ring_of = |v: &[Coord<T>]| LineString::new(v.to_vec());
+        match c.wrap % 8 {
+            0 => MultiPoint::new(coords.iter().map(|c| Point(*c)).collect()).convex_hull(),
+            1 => LineString::new(coords.clone()).convex_hull(),
             // Polygon::new closes the ring: one more copy of the first point, same coordinate set
-            Polygon::new(LineString::new(coords.clone()), vec![]).convex_hull()
+            2 => Polygon::new(LineString::new(coords.clone()), vec![]).convex_hull(),
+            3 => geo::MultiLineString::new(vec![ring_of(&coords[..h]), ring_of(&coords[h..])]).convex_hull(),
+            // the hull is taken of the exterior ring only (exterior_coords_iter): all coordinates there, a repeated subset as "hole"
+            4 => Polygon::new(LineString::new(coords.clone()), vec![ring_of(&coords[h..])]).convex_hull(),
+            5 => geo::MultiPolygon::new(vec![Polygon::new(ring_of(&coords[..h]), vec![]), Polygon::new(ring_of(&coords[h..]), vec![])]).convex_hull(),
+            6 => geo::GeometryCollection::new_from(vec![
+                geo::Geometry::MultiPoint(MultiPoint::new(coords[..h].iter().map(|c| Point(*c)).collect())),
+                geo::Geometry::LineString(ring_of(&coords[h..])),
+            ]).convex_hull(),
+            _ => geo::Geometry::MultiPoint(MultiPoint::new(coords.iter().map(|c| Point(*c)).collect())).convex_hull(),
         }
     }));
+    obs.label(format!("receiver:{}", ["MultiPoint", "LineString", "Polygon", "MultiLineString", "Polygon-with-hole", "MultiPolygon", "GeometryCollection", "Geometry"][(c.wrap % 8) as usize]));
     results.push(("convex_hull", wrapped.map(|p| p.exterior().clone())));
+    // (graham_hull(.., include_on_hull = true) is not covered: the statement demands that no hull vertex lies between its
+    // neighbours, which that mode gives up by design; see DESIGN.md §5.3 for what was observed there)
     for (name, r) in results {
         match r {
             Ok(ring) => {
                 if !degenerate {
                     check_ring(&format!("{name}:{tname}"), &ring, back, &c.pts, &want, obs, &ctx);
+                    {
+                        // documented on IsConvex: ConvexHull always returns a strictly convex ring unless the input is collinear
+                        use geo::algorithm::is_convex::IsConvex;
+                        obs.expect(ring.is_strictly_ccw_convex(), &format!("{name}:{tname}|IsConvex-says-not-strictly-ccw-convex"), || format!("{:?}; {}", ring, ctx()));
+                    }
                 } else {
                     // fewer than three non-collinear inputs: the statement promises no ring structure, but the hull still
                     // "contains the input" (title; the quantifier lists these inputs): its vertices are input coordinates
@@ -245,7 +265,7 @@ impl Property for C08 {
             prop_oneof![Just(0.9f64), Just(0.3), Just(1.1), Just(1e-3), Just(0.7), Just(1.0)],
         )
             .prop_map(|(pts, mx, my)| Case { pts, int: false, wrap: 0, mul: Some((mx, my)) });
-        let lattice = (pts_strategy(), any::<bool>(), 0u8..3)
+        let lattice = (pts_strategy(), any::<bool>(), 0u8..8)
             .prop_map(|(pts, int, wrap)| {
                 let int = int && pts.iter().all(|p| p.0.abs() < (1 << 29) && p.1.abs() < (1 << 29));
                 Case { pts, int, wrap, mul: None }
@@ -293,6 +313,22 @@ impl Property for C08 {
             let maxabs = c.pts.iter().map(|p| p.0.abs().max(p.1.abs())).max().unwrap_or(0);
             if maxabs < (1 << 20) && !all_collinear(&c.pts) {
                 let mp = MultiPoint::new(c.pts.iter().map(|p| Point::new(p.0 as f64, p.1 as f64)).collect());
+                // other receivers holding the same coordinates give the same rectangle
+                {
+                    let cs: Vec<Coord<f64>> = c.pts.iter().map(|p| Coord { x: p.0 as f64, y: p.1 as f64 }).collect();
+                    let alt: geo::Geometry<f64> = match c.wrap % 3 {
+                        0 => geo::Geometry::LineString(LineString::new(cs)),
+                        1 => geo::Geometry::Polygon(Polygon::new(LineString::new(cs), vec![])),
+                        _ => geo::Geometry::GeometryCollection(geo::GeometryCollection::new_from(cs.iter().map(|q| geo::Geometry::Point(Point(*q))).collect())),
+                    };
+                    if let (Ok(a), Ok(b)) = (guard(std::panic::AssertUnwindSafe(|| alt.minimum_rotated_rect())), guard(std::panic::AssertUnwindSafe(|| mp.minimum_rotated_rect()))) {
+                        // (the rectangle itself is not unique - several orientations can tie - but its area is)
+                        use geo::Area;
+                        let (aa, ab) = (a.as_ref().map(|p| p.unsigned_area()), b.as_ref().map(|p| p.unsigned_area()));
+                        let same = match (aa, ab) { (Some(x), Some(y)) => (x - y).abs() <= 1e-9 * x.abs().max(y.abs()).max(1.0), (None, None) => true, _ => false };
+                        obs.expect(same, "minimum_rotated_rect|area-depends-on-receiver", || format!("{:?} vs {:?}; pts={:?}", a, b, c.pts));
+                    }
+                }
                 match guard(std::panic::AssertUnwindSafe(|| mp.minimum_rotated_rect())) {
                     Ok(Some(r)) => {
                         let e = &r.exterior().0;
